@@ -79,6 +79,22 @@ func c10(w *World) {
 		sc.Settle()
 		w.Probe("neighbour_session_traffic")
 	}
+	if w.W.Chance(1, 4) {
+		// stay silent until the library probes us: the first thing it then hears is the ResendRequest
+		// (the session is logged on all along; its own TestRequest is part of the outbound history)
+		tol := hb / 20
+		if tol < 1 {
+			tol = 1
+		}
+		T := time.Duration(hb+tol) * time.Second
+		sc.P.Take()
+		simrt.Sleep(T + T/10 + time.Millisecond)
+		sc.Settle()
+		if count(sc.P.Take(), "1") > 0 && !sc.P.EOF {
+			w.Probe("resend_while_probe_outstanding")
+			w.Cfg("probe_outstanding", true)
+		}
+	}
 	// reference model: sequence number -> bytes of the first transmission
 	logOf := func() (map[int][]byte, int, bool) {
 		m := map[int][]byte{}
